@@ -60,3 +60,99 @@ package parser
 //@   at return assert [unknown-kind-rejected] parsed == 0 ==> err == ErrUnknownFileKind && f == nil
 //@
 //@ ginv errUnknownFileKindNonNil := ErrUnknownFileKind != nil
+//@
+//@ # ---- C05 (parser half): a string literal is split into literal pieces and ${expr} parts that tile its text ----
+//@ # srcAt(p, pos, text): text is the source text at pos (true of interpreted string literals by the scanner's
+//@ # string-text postcondition, C15)
+//@ pred inSrc(p *parser, pos token.Pos, text string) := p != nil && p.file != nil &&
+//@        fileBase(p.file) <= int(pos) && int(pos) + len(text) <= fileBase(p.file) + len(p.scanner.src) && fileSize(p.file) == len(p.scanner.src)
+//@ pred srcAt(p *parser, pos token.Pos, text string) := inSrc(p, pos, text) &&
+//@        (forall i in 0..len(text) :: p.scanner.src[int(pos) - fileBase(p.file) + i] == text[i])
+//@
+//@ # the parser's error sink and the expression sub-parser are outside this proof (ASSUMED: error records and
+//@ # returns — its bailout panic after 10 errors is caught by the parser's entry points; ParseExprEx returns an
+//@ # expression or errors)
+//@ trusted (*parser).error
+//@   requires p != nil
+//@   assigns p.errors, elems(p.errors)
+//@   ensures fresh(p.errors) || samearray(p.errors, old(p.errors))
+//@ trusted ParseExprEx
+//@   requires file != nil && 0 <= offset && offset <= len(src)
+//@   assigns nothing
+//@   ensures len(err) == 0 ==> expr != nil && istype(expr, ast.Expr)
+//@
+//@ func hasExtra
+//@   assigns nothing
+//@ loop hasExtra#1
+//@   decreases len(text)
+//@
+//@ # exprOff/exprEnd: the source region handed to the expression parser by the last stringLitExpr call
+//@ ghost exprOff int
+//@ ghost exprEnd int
+//@ func (*parser).stringLitExpr
+//@   requires p != nil && p.file != nil && fileBase(p.file) <= int(off) && int(off) <= int(end) && int(end) <= fileBase(p.file) + len(p.scanner.src)
+//@   assigns p.errors, elems(p.errors), elems(parts), exprOff, exprEnd
+//@   at call ParseExprEx#1 set exprOff = arg2
+//@   at call ParseExprEx#1 set exprEnd = len(arg1)
+//@   ensures [appends-one-expr] len(result) == len(parts) + 1 && (forall k in 0..len(parts) :: result[k] == parts[k]) &&
+//@            istype(result[len(parts)], ast.Expr)
+//@   ensures [arrays] (fresh(result) || samearray(result, parts)) && (fresh(p.errors) || samearray(p.errors, old(p.errors)))
+//@   ensures [parses-exactly-the-region] exprOff == int(off) - fileBase(p.file) && exprEnd == int(end) - fileBase(p.file)
+//@
+//@ # bookkeeping of stringLitEx: sDone bytes of the literal's text are covered by the parts appended so far; the part
+//@ # stored at index j of the parts list covers [psA[j], peA[j]) of the text; an expression part was parsed from source
+//@ # offsets [exOffA[j], exEndA[j])
+//@ ghost sDone int
+//@ ghost psA array[int]int
+//@ ghost peA array[int]int
+//@ ghost exOffA array[int]int
+//@ ghost exEndA array[int]int
+//@ pred tiled(n0 int, n int, done int) := (n == n0 ==> done == 0) && (n > n0 ==> psA[n0] == 0 && peA[n-1] == done) &&
+//@        (forall j in n0..n :: 0 <= psA[j] && psA[j] < peA[j] && peA[j] <= done && (j > n0 ==> psA[j] == peA[j-1]))
+//@
+//@ func (*parser).stringLitEx
+//@   requires inSrc(p, pos, text)
+//@   requires [text-is-the-source-text] forall i in 0..len(text) :: p.scanner.src[int(pos) - fileBase(p.file) + i] == text[i]
+//@   assigns p.errors, elems(p.errors), elems(parts), exprOff, exprEnd, sDone, psA, peA, exOffA, exEndA
+//@   at entry set sDone = 0
+//@   at call append#3 set psA = store(psA, len(parts), sDone)
+//@   at call append#3 set peA = store(peA, len(parts), sDone + at)
+//@   at call append#3 set sDone = sDone + at
+//@   at call stringLitExpr#1 assert [expr-is-between-the-braces] text[at] == '$' && text[at+1] == '{' && left[end] == '}' &&
+//@            int(arg2) == int(pos) + at + 2 && int(arg3) == int(arg2) + end && (forall i in 0..end :: left[i] == text[at + 2 + i])
+//@   at call stringLitExpr#1 set psA = store(psA, len(parts), sDone)
+//@   at call stringLitExpr#1 set peA = store(peA, len(parts), sDone + end + 3)
+//@   at call stringLitExpr#1 set exOffA = store(exOffA, len(parts), exprOff)
+//@   at call stringLitExpr#1 set exEndA = store(exEndA, len(parts), exprEnd)
+//@   at call stringLitExpr#1 set sDone = sDone + end + 3
+//@   at call append#2 set psA = store(psA, len(parts), sDone)
+//@   at call append#2 set peA = store(peA, len(parts), sDone + at + 2)
+//@   at call append#2 set sDone = sDone + at + 2
+//@   at call append#1 set psA = store(psA, len(parts), sDone)
+//@   at call append#1 set peA = store(peA, len(parts), sDone + len(text))
+//@   at call append#1 set sDone = sDone + len(text)
+//@   ensures [parts-appended] result != nil ==> len(result) >= len(parts)
+//@   ensures [parts-tile-the-text] result != nil ==> sDone == len(text) && tiled(len(parts), len(result), sDone)
+//@ loop (*parser).stringLitEx#1
+//@   invariant inSrc(p, old(pos), old(text)) && p == old(p)
+//@   invariant [suffix-len] 0 <= sDone && sDone + len(text) == len(old(text))
+//@   invariant [suffix] forall i in 0..len(text) :: text[i] == old(text)[sDone + i]
+//@   invariant [pos] int(pos) == int(old(pos)) + sDone
+//@   invariant [extra] extra == (sDone > 0) && (extra ==> len(text) > 0)
+//@   invariant [count] len(parts) >= len(old(parts))
+//@   invariant [arrays] (fresh(parts) || samearray(parts, old(parts))) && (fresh(p.errors) || samearray(p.errors, old(p.errors)))
+//@   invariant [tiled] tiled(len(old(parts)), len(parts), sDone)
+//@   decreases len(text)
+//@
+//@ # litScanned: what the scanner guarantees for the literal of a STRING token at pos (Scan's string-text and
+//@ # rawstring-len postconditions, C15): an interpreted literal IS the source text at pos; of a raw literal only that
+//@ # it starts at pos, inside the file, and is not longer than the source it came from (carriage returns are stripped)
+//@ pred litScanned(p *parser, pos token.Pos, val string) := len(val) >= 2 && inSrc(p, pos, val) && (val[0] == '"' || val[0] == '`') &&
+//@        (val[0] == '"' ==> srcAt(p, pos, val))
+//@ func (*parser).stringLit
+//@   requires litScanned(p, pos, val)
+//@   assigns p.errors, elems(p.errors), exprOff, exprEnd, sDone, psA, peA, exOffA, exEndA
+//@   at store val#2 assert [raw-literal-length] len(val) == end + 2 && end >= 0 && len(src) == len(p.scanner.src) - (int(pos) - fileBase(p.file)) && end + 2 <= len(src)
+//@   at store val#2 assert [raw-literal-in-source] len(val) >= 2 && inSrc(p, pos, val)
+//@   at store val#2 assert [raw-literal-reread-from-source] forall i in 0..len(val) :: p.scanner.src[int(pos) - fileBase(p.file) + i] == val[i]
+//@   ensures [extra-parts-tile-the-literal-body] result != nil ==> tiled(0, len(result.Parts), sDone) && (val[0] == '"' ==> sDone == len(val) - 2)
